@@ -2038,6 +2038,9 @@ Proof.
   specialize (IH h1 Bops H1). destruct (hrun h1 ops) as [rest hf]. exact IH.
 Qed.
 
+Theorem invariant_reachable t0 ops : Forall benign ops -> HInv (snd (hrun (hinit t0) ops)).
+Proof. intro FB. exact (hrun_inv ops (hinit t0) FB (HInv_init t0)). Qed.
+
 (* C02, for every history of SDK operations, clock advances and revocations over one service/product: every record any
    Encrypt has returned so far names an intermediate key row that is in the metastore, whose ParentKeyMeta names a system key
    row that is in the metastore, and is sealed so that those two rows and the KMS open it - whatever faults, refused
